@@ -4,7 +4,8 @@
   mul <kind> <val> <kind> <val>        → "<model> <spec>"
   fmul <kind> <val> <kind> <val>       → "<model>\t-"   (a float operand: the documented ε-rule, `NumFloat.multipleOfNum`;
                                           the model observation is the oracle)
-  xcmp <op> OPND OPND / xmul OPND OPND  → "<model>\t<spec>"   an operand `toNum` does not hold (big integers: the exact
+  xcmp <op> OPND OPND / xmul OPND OPND  → "<model>\t<spec>"   (model = `Model/NumBig.lean`: `xcmp` / `xmul`, the theorems of
+                                          `Proofs/C16Big.lean` are about these) an operand `toNum` does not hold (big integers: the exact
                                           `big.Int` path; complex: `coerce.ToFloat64`, `xval`); spec = the comparison of the
                                           values / integer divisibility when both operands denote a number exactly
                                           (built-in kinds, uintptr, big integers), `-` otherwise; OPND = <kind> <val> | nx 0 (a named numeric type:
@@ -15,8 +16,9 @@
 -/
 import Gozod.Model.Num
 import Gozod.Model.NumFloat
+import Gozod.Model.NumBig
 namespace Gozod.Drv.C16
-open Gozod
+open Gozod Gozod.NumBig
 
 def parseNum (kind val : String) : Option Num :=
   if kind == "f64" || kind == "f32" then
@@ -29,14 +31,6 @@ def parseNum (kind val : String) : Option Num :=
     let v ← val.toInt?
     if t.inRange v then some (Num.ofInt t v) else none
 
-/-- An operand of `compareNumeric` / `MultipleOf` in general. -/
-inductive Opnd where
-  | num (n : Num)
-  | uptr (v : Int)         -- a uintptr: `toNum` holds it as a uint64, `coerce.ToFloat64` has no case for it
-  | named                  -- a named numeric type: `reflectx.IsNumeric` says no
-  | cplx (mag : F)         -- complex64/128: `coerce.ToFloat64` returns the magnitude
-  | big (v : Int)          -- *big.Int: `bigIntToFloat64`
-
 def parseOpnd (kind val : String) : Option Opnd :=
   if kind == "nx" then some .named
   else if kind == "cx" then val.toNat?.map (fun b => .cplx (F.ofBits b))
@@ -44,128 +38,12 @@ def parseOpnd (kind val : String) : Option Opnd :=
   else if kind == "uptr" then (parseNum kind val).bind (fun n => match n with | .u v => some (.uptr v) | _ => none)
   else (parseNum kind val).map Opnd.num
 
-/-- What `toNum` holds (the exact payload), if anything. -/
-def Opnd.toNum? : Opnd → Option Num
-  | .num n => some n
-  | .uptr v => some (.u v)
-  | _ => none
-
-/-- `toFloat64` of pkg/validate (= `coerce.ToFloat64`, false on an error): NaN floats, big
-    integers beyond MaxFloat64 and uintptr values have no reading; a complex NaN magnitude is
-    returned as it is. -/
-def xval : Opnd → Option F
-  | .num (.f x) => if x.isNaN then none else some x
-  | .num n => some (NumFloat.numToF n)
-  | .uptr _ => none
-  | .named => none
-  | .cplx m => some m
-  | .big v => match Coerce.finOrOverflow (Coerce.bigToF64 v) with
-    | .ok x => some x
-    | .error _ => none
-
-/-- `toBig` of the fixed code: the exact value of a big integer or of a built-in integer. -/
-def Opnd.toBig? : Opnd → Option Int
-  | .big v => some v
-  | .num (.i v) => some v
-  | .num (.u v) => some v
-  | .uptr v => some v
-  | _ => none
-
-def isBigOp : Opnd → Bool
-  | .big _ => true
-  | _ => false
-
-/-- `cmpBig` of the fixed code (at least one operand is a big integer): integers by `big.Int.Cmp`,
-    a big integer against a float64 exactly (`big.Float.Cmp`; NaN unordered, infinities by sign);
-    `none` = not decided here (a complex operand: the magnitude path). -/
-def cmpBigOp (a b : Opnd) : Option (Option Ordering) :=
-  match a.toBig?, b.toBig? with
-  | some x, some y => some (some (compare x y))
-  | some x, none => (match b with
-    | .num (.f y) => some (F.cmp (.fin x 0) y)
-    | _ => none)
-  | none, some y => (match a with
-    | .num (.f x) => some (F.cmp x (.fin y 0))
-    | _ => none)
-  | none, none => none
-
-def isNamed : Opnd → Bool
-  | .named => true
-  | _ => false
-
-def isFloatNum : Num → Bool
-  | .f _ => true
-  | _ => false
-
-/-- `compareNumeric`: the exact path when `toNum` holds both operands; otherwise `IsNumeric` on
-    both, `toFloat64Pair`, `cmpFloats`. -/
-def xcmp (op : CmpOp) (a b : Opnd) : Bool :=
-  match a.toNum?, b.toNum? with
-  | some x, some y => implCmp op x y
-  | _, _ =>
-    if isNamed a || isNamed b then false else
-    match (if isBigOp a || isBigOp b then cmpBigOp a b else none) with
-    | some (some o) => op.ofOrdering o
-    | some none => false
-    | none =>
-    match xval a, xval b with
-    | some x, some y => (match F.cmp x y with
-      | some o => op.ofOrdering o
-      | none => false)
-    | _, _ => false
-
-/-- `MultipleOf`: the exact integer branch when `toNum` holds two integers; otherwise the ε-rule
-    on the two `coerce.ToFloat64` readings. -/
-def xmul (a b : Opnd) : Bool :=
-  let ints := match a.toNum?, b.toNum? with
-    | some x, some y => if isFloatNum x || isFloatNum y then none else some (multipleOfInts x y)
-    | _, _ => none
-  match ints with
-  | some r => r
-  | none =>
-    if isNamed a || isNamed b then false else
-    let bigs := if isBigOp a || isBigOp b then
-        (match a.toBig?, b.toBig? with
-          | some x, some y => some (specMultipleOfInt x y)     -- y.Sign() != 0 && Rem(x, y).Sign() == 0
-          | _, _ => none)
-      else none
-    match bigs with
-    | some r => r
-    | none =>
-    match xval a, xval b with
-    | some x, some y => NumFloat.floatMultipleOf x y
-    | _, _ => false
-
 def b2s (b : Bool) : String := if b then "1" else "0"
 
-/-! ### specification for operands that denote a number exactly (built-in kinds, uintptr, big
-     integers): the mathematical comparison / integer divisibility, written against the values, not
-     against the code's paths.  Complex and named-type operands have none (`-`). -/
-
-def Opnd.value? : Opnd → Option F
-  | .num n => some n.toF
-  | .uptr v => some (.fin v 0)
-  | .big v => some (.fin v 0)
-  | _ => none
-
-def Opnd.intValue? : Opnd → Option Int
-  | .num (.i v) => some v
-  | .num (.u v) => some v
-  | .uptr v => some v
-  | .big v => some v
-  | _ => none
-
-def specXcmp (op : CmpOp) (a b : Opnd) : String :=
-  match a.value?, b.value? with
-  | some x, some y => (match F.cmp x y with
-    | some o => b2s (op.ofOrdering o)
-    | none => "0")
-  | _, _ => "-"
-
-def specXmul (a b : Opnd) : String :=
-  match a.intValue?, b.intValue? with
-  | some v, some d => b2s (specMultipleOfInt v d)
-  | _, _ => "-"
+/-- `-` = the operands have no specification (complex, named types). -/
+def showSpec : Option Bool → String
+  | some b => b2s b
+  | none => "-"
 
 def specMul (a b : Num) : Option Bool :=
   match a, b with
@@ -189,11 +67,11 @@ def handle : List String → String
     | _, _ => "bad-op"
   | ["xcmp", op, ka, a, kb, b] =>
     match CmpOp.ofString? op, parseOpnd ka a, parseOpnd kb b with
-    | some op, some x, some y => s!"{b2s (xcmp op x y)}\t{specXcmp op x y}"
+    | some op, some x, some y => s!"{b2s (xcmp op x y)}\t{showSpec (specXcmp op x y)}"
     | _, _, _ => "bad-op"
   | ["xmul", ka, a, kb, b] =>
     match parseOpnd ka a, parseOpnd kb b with
-    | some x, some y => s!"{b2s (xmul x y)}\t{specXmul x y}"
+    | some x, some y => s!"{b2s (xmul x y)}\t{showSpec (specXmul x y)}"
     | _, _ => "bad-op"
   | ["fmul", ka, a, kb, b] =>
     match parseOpnd ka a, parseOpnd kb b with
